@@ -90,6 +90,8 @@ ElabMethod(m, code) ==
     [name |-> Str(m.name), name_c |-> m.name, kind |-> m.kind, args |-> m.args, outcome |-> m.outcome,
      code |-> code, h |-> NameHash(m.name), variant |-> Str(Variant(m.name)), wire |-> Str(WName(m)), ser |-> Str(SerName(m)),
      aliases |-> [i \in 1..Len(Aliases(m)) |-> Str(Aliases(m)[i])], renamed |-> "wname" \in DOMAIN m,
+     \* an attribute forwarded from the handler to its variant that does not concern the wire format (a name for the *schema*, say)
+     hattr |-> IF "hattr" \in DOMAIN m THEN m.hattr ELSE "",
      near |-> Str(Near(m.name)), shape_name |-> IsShapeName(m.name), ctxkind |-> m.ctxkind, resp |-> m.resp, explicit |-> m.explicit, sig |-> m.sig, ret |-> m.ret]
 ElabPart(part, base) ==
     [id |-> part.id,
